@@ -672,24 +672,27 @@ Proof.
       destruct v as [c|b]; [|destruct o as [[]| |]; try discriminate];
         (destruct a1 as [c1|b1|rows|rows|q isb|l isb|m isb];
          try (destruct rows as [|r0 [|r1 rows]]); try discriminate;
-         bindinv H; okinv; eapply G; try eassumption; cbn; auto;
-         try (inversion Hp; subst; assumption)).
+         bindinv H; okinv;
+         match goal with
+         | Hi : vec_ibin false _ ?al _ ?p = Ok ?v', Hw : with_vec a0 ?v' = Ok ?x' |- _ =>
+             apply (G al p v' x'); [|exact Hi|exact Hw]
+         end; cbn; auto; try (inversion Hp; subst; assumption)).
     + bindinv H. okinv. apply store_wf_set; auto. eapply with_rows_wf; [|eassumption].
       eapply array_ibin_wf; [|exact Hp|eassumption]. now apply rows_of_wf.
   - (* ORBin *)
     bindinv H. okinv. apply store_wf_app; auto.
     pose proof (getobj_wf _ _ _ Hs E) as Hx.
-    assert (Hl : Forall vwf a1).
+    assert (Hl : Forall vwf a0).
     { eapply mapM_Forall; [|apply (rows_of_wf _ Hx)|exact E0]. intros v y Hv Hy.
-      destruct o, v as [c|b]; cbn in Hy;
+      destruct o, v as [c|b]; cbv beta iota in Hy;
         try (eapply vec_bin_wf; [exact Hv| |exact Hy]; exact I).
       - apply okF_inv in Hy as (c' & Hc & ->). cbn. eapply rsub_scalar_wf; eauto.
       - apply okF_inv in Hy as (c' & Hc & ->). cbn. eapply add_scalar_wf; [|exact Hc]. apply wf_neg_bits.
       - apply okF_inv in Hy as (c' & Hc & ->). cbn. eapply rtruediv_scalar_wf; eauto.
       - apply okF_inv in Hy as (c' & Hc & ->). cbn.
         destruct (mapM _ b); cbn in Hc; inversion Hc; subst. apply (wf_map_nz (fun x => x)). }
-    destruct (vec_of_obj a0).
-    + destruct a1 as [|v [|v2 a1]]; try discriminate. okinv. apply obj_of_vec_wf. now inversion Hl.
+    destruct (vec_of_obj a).
+    + destruct a0 as [|w [|w2 a0]]; try discriminate. okinv. apply obj_of_vec_wf. now inversion Hl.
     + eapply obj_of_rows_wf; eauto.
   - (* ONeg *)
     bindinv H. okinv. apply store_wf_app; auto. pose proof (getobj_wf _ _ _ Hs E) as Hx.
